@@ -42,6 +42,8 @@ type World struct {
 	ClientKeys map[string]jose.JSONWebKey // private keys of private_key_jwt clients
 	SigAlg     jose.SignatureAlgorithm
 	AlgPrefix  string
+	// DefaultAlgs: the provider's verifiers run with the library's default algorithm list
+	DefaultAlgs bool
 	KeyN       int
 
 	Ledger *Ledger
@@ -87,6 +89,9 @@ type StdOptions struct {
 	// Tenants > 1: the provider derives its issuer from each request (IssuerMode "host" or "forwarded", seeded if
 	// empty) and is reachable under that many host names
 	Tenants int
+	// DefaultVerifierAlgs: when the run's algorithm is one the library's verifiers accept by default (RS256, ES256,
+	// PS256) the provider gets no explicit algorithm options for its access-token and hint verifiers
+	DefaultVerifierAlgs bool
 }
 
 // NewStd builds the standard world from the "cfg" stream of the tape.
@@ -178,8 +183,12 @@ func NewStd(o *kernel.Outcome, tape *kernel.Tape, opt StdOptions) (*World, error
 	w.Net = NewNet(w.Store)
 	var opts []op.Option
 	// the provider must accept the tokens it signs itself, whatever the run's algorithm is
-	opts = append(opts, op.WithAccessTokenVerifierOpts(op.WithSupportedAccessTokenSigningAlgorithms(string(w.SigAlg))),
-		op.WithIDTokenHintVerifierOpts(op.WithSupportedIDTokenHintSigningAlgorithms(string(w.SigAlg))))
+	if opt.DefaultVerifierAlgs && (w.SigAlg == jose.RS256 || w.SigAlg == jose.ES256 || w.SigAlg == jose.PS256) {
+		w.DefaultAlgs = true
+	} else {
+		opts = append(opts, op.WithAccessTokenVerifierOpts(op.WithSupportedAccessTokenSigningAlgorithms(string(w.SigAlg))),
+			op.WithIDTokenHintVerifierOpts(op.WithSupportedIDTokenHintSigningAlgorithms(string(w.SigAlg))))
+	}
 	opts = append(opts, opt.Options...)
 	w.Issuer += opt.IssuerPath
 	for _, id := range w.SortedClients() {
